@@ -12,14 +12,14 @@ package fatigue
 //@   opaque
 
 //@ func (*ConstFatigueFunction).Evaluate
-//@   property C17 C09 C01
+//@   property C17 C09 C01 C07 C20
 //@   ensures [const] result == params.(*ConstFatigueParams).Value
 //@ func (*ExponentialFromZeroFatigue).Evaluate
-//@   property C17 C09 C01
+//@   property C17 C09 C01 C07 C20
 //@   ensures [exp] result == params.(*ExpFatigueParams).Multiplier * exp(params.(*ExpFatigueParams).Alpha * real(params.(*ExpFatigueParams).QueryNumber)) - params.(*ExpFatigueParams).Multiplier
 
 //@ func blurCriteriaValues
-//@   property C17 C07 C09 C01
+//@   property C17 C07 C09 C01 C20
 //@   fnparam valueGenerator ensures 0.0 <= result && result < 1.0
 //@   fnparam signGenerator ensures 0.0 <= result && result < 1.0
 //@   requires forall i int, j int :: 0 <= i && i < j && j < len(criteria) ==> criteria[i].criterion.Id != criteria[j].criterion.Id
@@ -57,7 +57,7 @@ package fatigue
 //@      b.valueRange.Min == utils.scaledMin(r, b.bounding.AllowedValuesRangeScaling) && b.valueRange.Max == utils.scaledMax(r, b.bounding.AllowedValuesRangeScaling)
 
 //@ func matchCriteriaWithBoundings
-//@   property C17 C07 C09 C01
+//@   property C17 C07 C09 C01 C20
 //@   ensures [criteria_in_order] fresh(result) && len(result) == len(dmp.Criteria) && forall k int :: 0 <= k && k < len(dmp.Criteria) ==> result[k].criterion == dmp.Criteria[k]
 //@   ensures [clipping_interval_from_declared_range] forall k int :: 0 <= k && k < len(dmp.Criteria) && dmp.Criteria[k].ValuesRange != nil ==> result[k].bounding != nil
 //@             && (result[k].bounding.valueRange != nil ==> clippedFrom(*result[k].bounding, old(*dmp.Criteria[k].ValuesRange)))
@@ -72,7 +72,7 @@ package fatigue
 //@             && (result[k].bounding.valueRange != nil ==> exists r utils.ValueRange :: model.observed(r, alternatives, dmp.Criteria[k].Id) && clippedFrom(*result[k].bounding, r))
 
 //@ func prepareResult
-//@   property C17 C09 C07 C01
+//@   property C17 C09 C07 C01 C20
 //@   ensures [state] fresh(result) && fresh(result.DMP) && result.DMP.ConsideredAlternatives == consideredAlts && result.DMP.NotConsideredAlternatives == notConsideredAlts
 //@   ensures [untouched] result.DMP.Criteria == current.Criteria && result.DMP.MethodParameters == current.MethodParameters
 //@   ensures [report] typeis(result.Props, FatigueResult) && result.Props.(FatigueResult).EffectiveFatigueRatio == fatigueRatio
@@ -86,7 +86,7 @@ package fatigue
 //@   fnparam .signGeneratorSource pure
 //@   returnhint [function_named_in_the_request_seed_of_the_request] fatName(fun) == parsedProps.Function
 //@             && valueGenerator == appfn(f.valueGeneratorSource, parsedProps.RandomSeed) && signGenerator == appfn(f.signGeneratorSource, parsedProps.RandomSeed)
-//@   property C17 C09 C07 C01
+//@   property C17 C09 C07 C01 C20
 //@   requires forall i int, j int :: 0 <= i && i < j && j < len(current.Criteria) ==> current.Criteria[i].Id != current.Criteria[j].Id
 //@   ensures [untouched] result.DMP.Criteria == current.Criteria && result.DMP.MethodParameters == current.MethodParameters
 //@   ensures [report_is_state] typeis(result.Props, FatigueResult)
@@ -107,16 +107,16 @@ package fatigue
 //@ ifacemethod FatigueFunction.BlankParams
 //@   ensures fatMadeBy(result, self)
 //@ func parseFatigueFuncParams
-//@   property C17 C09 C07 C01
+//@   property C17 C09 C07 C01 C20
 //@   ensures [the_functions_own_parameter_object] fatMadeBy(result, fun)
 
 // ---- no state shared between requests (C09): every request decodes its function parameters into a new object
 //@ func (*ConstFatigueFunction).BlankParams
-//@   property C09 C17 C01
+//@   property C09 C17 C01 C07 C20
 //@   nopanic
 //@   ensures [new_object_each_time] typeis(result, *ConstFatigueParams) && fresh(result.(*ConstFatigueParams))
 //@ func (*ExponentialFromZeroFatigue).BlankParams
-//@   property C09 C17 C01
+//@   property C09 C17 C01 C07 C20
 //@   nopanic
 //@   ensures [new_object_each_time] typeis(result, *ExpFatigueParams) && fresh(result.(*ExpFatigueParams))
 
@@ -147,13 +147,13 @@ package fatigue
 
 // ---- registered names (what a request must say to select this object; what error messages list)
 //@ func (*ConstFatigueFunction).Name
-//@   property C17 C20
+//@   property C17 C20 C01 C07 C09
 //@   nopanic
 //@   ensures [name] result == "const"
 
 // ---- registered names (what a request must say to select this object; what error messages list)
 //@ func (*Fatigue).Identifier
-//@   property C07 C09 C17 C20
+//@   property C07 C09 C17 C20 C01 C03 C04 C05 C06 C08 C11 C12 C13 C14 C15 C16 C18 C19
 //@   nopanic
 //@   ensures [name] result == "fatigue"
 
